@@ -143,7 +143,10 @@ class Lab(object):
     def add_entry(self, app, e, index):
         from clastic import SubApplication
         if e[0] == 'route':
-            app.add(self.route(e[1]), index, inherit_slashes=bool(e[2]))
+            if e[2]:
+                app.add(self.route(e[1]), index)          # the default (inherit) is not spelled out
+            else:
+                app.add(self.route(e[1]), index, inherit_slashes=False)
         else:
             _, prefix, env, entries, rebind, inherit = e
             inner = self.make_app(env, entries)
